@@ -74,6 +74,18 @@ def cases(tier: str, seed: int) -> List[Dict[str, Any]]:
                 if not shape and "linear" in fn:
                     continue
                 add([[tau, fn, []]], shape)
+    # environment coordinates: autograd disabled (forward value only) and a preceding call of the
+    # same program in a low-precision dtype (process history: "never varies between calls")
+    for tau in TAUS + [None]:
+        for fn in ("tanh", "linear", "u_gelu", "identity"):
+            for gm in ("no_grad", "inference_mode"):
+                for mode in ("split_add", "apply"):
+                    out.append({"forest": [[tau, fn, []]], "shape": [2, 3], "mode": mode, "seed": seed, "grad_mode": gm})
+                    out.append({"forest": [[tau, fn, []], [tau, "double", [[tau, fn, []]]]], "shape": [2, 3], "mode": mode,
+                                "seed": seed, "grad_mode": gm})
+            for pre in ("bfloat16", "float16", "float32"):
+                out.append({"forest": [[tau, fn, []]], "shape": [2, 3], "mode": "split_add", "seed": seed, "pre_dtype": pre})
+                out.append({"forest": [[tau, fn, [[tau, "tanh", []]]]], "shape": [3], "mode": "apply", "seed": seed, "pre_dtype": pre})
     nmax = 3 if tier == "quick" else 4
     sub = list(itertools.product(SUB_TAUS, SUB_FNS))
     for n in range(2, nmax + 1):
@@ -141,6 +153,11 @@ def run_case(case: Dict[str, Any]) -> Dict[str, Any]:
         return s
 
     ident = f"{mode}|layers={count(forest)}|nested={int(any(k[2] for k in forest))}"
+    gmode = case.get("grad_mode")
+    if gmode:
+        ident += f"|{gmode}"
+    if case.get("pre_dtype"):
+        ident += f"|after_{case['pre_dtype']}_call"
     steps = 0
     for draw in (0, 1):
         g = torch.Generator().manual_seed(derive_seed(case["seed"], "C06", draw) % (2**31))
@@ -166,7 +183,8 @@ def run_case(case: Dict[str, Any]) -> Dict[str, Any]:
                 else:
                     r, s = U.residual_split(x, **kw)
                     out = U.residual_add(branch(r), s, **kw)
-                out.register_hook(lambda gr, h=holder: h.__setitem__("out", gr.clone()))
+                if out.requires_grad:
+                    out.register_hook(lambda gr, h=holder: h.__setitem__("out", gr.clone()))
                 x = out
             return x
 
@@ -177,6 +195,37 @@ def run_case(case: Dict[str, Any]) -> Dict[str, Any]:
                 x = (x + t * b) / (1 + t * t) ** 0.5
             return x
 
+        if case.get("pre_dtype") and draw == 0:
+            # history: the same residual structure is first used in a low-precision dtype
+            try:
+                dtp = getattr(torch, case["pre_dtype"])
+                d_saved = d
+                xp = x0.to(dtp).requires_grad_(True)
+
+                def _fn_lp(name: str, dd: int, base: Any = _fn) -> Any:
+                    f = base(name, dd)
+                    return (lambda x: f(x.double()).to(dtp)) if "linear" in name else f
+
+                impl_lp = impl
+                yp = impl_lp([[t, ("tanh" if "linear" in fnm else fnm), k] for t, fnm, k in forest], xp)
+                yp.backward(torch.ones_like(yp))
+            except Exception:  # noqa - low precision not supported for this branch: history step skipped
+                pass
+            pairs.clear()
+        if gmode:
+            ctx = torch.no_grad() if gmode == "no_grad" else torch.inference_mode()
+            try:
+                with ctx:
+                    yi = impl(forest, x0.clone())
+            except Exception as e:  # noqa
+                return {"violations": [exception_violation(e, ident)], "steps": 1, "outcome": "raises"}
+            yr = ref(forest, x0.clone())
+            sc = max(yr.abs().max().item(), 1e-300)
+            if yi.shape != yr.shape or not bool(((yi - yr).abs() <= 1e-11 * sc + 1e-12 * yr.abs()).all()):
+                viol.append({"key": ident + "|forward_value", "msg": f"forest={forest}: max err {(yi - yr).abs().max().item():.3e}"})
+                break
+            steps += count(forest)
+            continue
         xi = x0.clone().requires_grad_(True)
         xr = x0.clone().requires_grad_(True)
         try:
